@@ -15,8 +15,8 @@ def run(run):
     toks = common.dump_lang_tokens()
     seeds = (0, 1, 2, run.seed + 3)
     # (language, model depth, cases emitted by TLC, minimum number of expected edges for a case to be executed)
-    plan = [('LTiny', 4, 400, 5), ('LSet', 4, 400, 5), ('LTrans', 4, 300, 6), ('LDef', 3, 200, 5), ('LVar', 3, 200, 5), ('LDup', 3, 300, 3), ('LInh', 3, 300, 4)]
+    plan = [('LTiny', 4, 6, 5), ('LSet', 4, 6, 5), ('LTrans', 4, 6, 6), ('LDef', 3, 5, 5), ('LVar', 3, 5, 5), ('LDup', 3, 5, 3), ('LInh', 3, 5, 4)]
     for lang, depth, n, me in plan:
         run.gen_replay('Gen_Graph', 'Gen_Graph.cfg', 'harness.replay_determinism', {'langs': langs, 'hashseeds': seeds, 'toks': toks, 'min_edges': me},
-                       env={'VERIF_LANG': lang, 'VERIF_DEPTH': depth, 'VERIF_MINASSETS': 2}, timeout=900, workers=4,
-                       max_cases=n if quick else n * 8, name='%s: models with >= %d expected edges among the first %d' % (lang, me, n if quick else n * 8))
+                       env={'VERIF_LANG': lang, 'VERIF_DEPTH': depth, 'VERIF_MINASSETS': 2, 'VERIF_MINEDGES': me}, timeout=900, workers=4,
+                       max_cases=n if quick else n * 12, name='%s: first %d models with >= %d expected edges' % (lang, n if quick else n * 12, me))
